@@ -286,7 +286,7 @@ func c11CloseRace(e *c11Env, rng *kit.RNG, mode string) {
 
 const c11ClusterRule = "3-server clusters (cursors stream: 1 partition, replication factor 3, small segments): concurrent clients at the cursors-partition leader L0, " +
 	"forced Clean() on every replica, checks; L0 is isolated (pauseReplication) and given sets that cannot commit (kept open); checks at the elected leader N1; " +
-	"new values for the hot keys at N1; L0's isolation ends and it rejoins the ISR as follower; the third replica is held out of the ISR (follower fetch gate) and N1 is isolated and stopped, " +
+	"new values for the hot keys at N1; L0 (running, deposed, still holding the cache of its term) and the third server are sent FetchCursor for every hot and warm key (a refusal is no observation, an answer is judged like any fetch; again at the end of the scenario); L0's isolation ends and it rejoins the ISR as follower; the third replica is held out of the ISR (follower fetch gate) and N1 is isolated and stopped, " +
 	"so L0 - whose cache still holds the values of its first term - leads again; checks at L0; concurrent clients at L0; N1 restarts on its data directory; final check. Same oracle as the single-node histories. " +
 	"non-trivial = both leader changes happened and all checks ran; distinct = scenario seed"
 
@@ -625,6 +625,10 @@ func c11RunCluster(rep *kit.Report, unit string, seed uint64) {
 		if !cc.alive() {
 			return
 		}
+		// L0 is still running and every server, L0 included, names N1: a
+		// client with stale metadata would still send its fetch to L0, which
+		// may refuse but must not answer from what it cached while in office
+		cc.askNonLeaders(n1, append(append([]c11Key(nil), hot...), warm...), map[string]bool{l0.ID: true})
 		if !cc.waitISR(cc.c.IDs...) || !cc.settle() {
 			return
 		}
@@ -655,6 +659,7 @@ func c11RunCluster(rep *kit.Report, unit string, seed uint64) {
 		}
 		if l := cc.leader(); l != nil {
 			cc.checkpoint(l, rng, "final", hot, warm)
+			cc.askNonLeaders(l, append(append([]c11Key(nil), hot...), warm...), map[string]bool{l0.ID: true, n1.ID: true})
 		}
 	}()
 	cc.finish()
